@@ -1,6 +1,7 @@
 import Gen.Marshal
 import Model.MarshalScalar
 import Model.MarshalDecode
+import Model.Marshal
 /-!
   Tie theorems between the definitions REGENERATED from /repo/marshal.go by tools/go2lean (`Gen.Marshal`, fixed-width
   BitVec arithmetic as the Go code computes) and the hand-written `Int`/`Nat` model the C02/C12 theorems are about
@@ -771,5 +772,66 @@ theorem decVint (data : List UInt8) (s : Nat) (hd : data.length < 2^60) (hs : s 
         rw [hr0, hn]
         congr 3
         omega
+
+/-! ### `writeCollectionSize` (`*bytes.Buffer` parameter = the list of bytes written, returned) against `Marshal.collSize` -/
+
+theorem bmod64 (a : Int) (ha : -(2:Int)^63 ≤ a ∧ a < 2^63) : a.bmod (2^64) = a := by
+  apply Int.bmod_eq_of_le
+  · have e : ((2 ^ 64 : Nat) : Int) = 18446744073709551616 := rfl
+    rw [e]; omega
+  · have e : ((2 ^ 64 : Nat) : Int) = 18446744073709551616 := rfl
+    rw [e]; omega
+
+theorem slt_int (a b : Int) (ha : -(2:Int)^63 ≤ a ∧ a < 2^63) (hb : -(2:Int)^63 ≤ b ∧ b < 2^63) :
+    BitVec.slt (BitVec.ofInt 64 a) (BitVec.ofInt 64 b) = decide (a < b) := by
+  simp only [BitVec.slt, BitVec.toInt_ofInt, bmod64 a ha, bmod64 b hb]
+
+theorem byteOf_shift_toS32 (n : Int) (k : Nat) (hk : k = 0 ∨ k = 8 ∨ k = 16 ∨ k = 24) :
+    byteOf (toS 32 n >>> k) = byteOf (n >>> k) := by
+  unfold byteOf toS
+  congr 2
+  simp only [Int.shiftRight_eq_div_pow]
+  obtain rfl | rfl | rfl | rfl := hk
+  all_goals (simp only [Nat.reducePow, Nat.reduceSub, Int.reducePow]; omega)
+
+theorem byteOf_shift_toS16 (n : Int) (k : Nat) (hk : k = 0 ∨ k = 8) :
+    byteOf (toS 16 n >>> k) = byteOf (n >>> k) := by
+  unfold byteOf toS
+  congr 2
+  simp only [Int.shiftRight_eq_div_pow]
+  obtain rfl | rfl := hk
+  all_goals (simp only [Nat.reducePow, Nat.reduceSub, Int.reducePow]; omega)
+
+/-- `writeCollectionSize(info, n, buf)` (the `*bytes.Buffer` is the list of the bytes written): "too large" or the
+    buffer followed by the model's `collSize` bytes, both protocol framings, every int -/
+theorem writeCollectionSize (p : BitVec 8) (n : Int) (hn : -(2:Int)^63 ≤ n ∧ n < 2^63) (buf : List (BitVec 8)) :
+    (match Gen.Marshal.writeCollectionSize p (BitVec.ofInt 64 n) buf with
+     | (b, err) => if err then none else some (b.map UInt8.ofBitVec))
+      = (Marshal.collSize p.toNat n).map (buf.map UInt8.ofBitVec ++ ·) := by
+  unfold Gen.Marshal.writeCollectionSize Marshal.collSize
+  have hp : BitVec.ult 0x2#8 p = decide (p.toNat > 2) := by simp [BitVec.ult]
+  have h1 : (0x7fffffff#64 : BitVec 64) = BitVec.ofInt 64 2147483647 := by decide
+  have h2 : (0xffff#64 : BitVec 64) = BitVec.ofInt 64 65535 := by decide
+  rw [hp, h1, h2, slt_int _ _ (by omega) hn, slt_int _ _ (by omega) hn]
+  by_cases hv : p.toNat > 2
+  · by_cases hbig : (2147483647:Int) < n
+    · simp [hv, hbig]
+    · have : ¬ n > 2147483647 := by omega
+      simp only [hv, hbig, decide_true, decide_false, if_true, if_false, Bool.false_eq_true, Option.map_some,
+        Marshal.encInt, List.map_append, List.map_cons, List.map_nil, List.append_assoc, List.cons_append, List.nil_append]
+      rw [byte_shift (by decide) n 24 hn, byte_shift (by decide) n 16 hn, byte_shift (by decide) n 8 hn, byte_low (by decide) n hn,
+        byteOf_shift_toS32 n 24 (by omega), byteOf_shift_toS32 n 16 (by omega), byteOf_shift_toS32 n 8 (by omega)]
+      have := byteOf_shift_toS32 n 0 (by omega)
+      simp only [Int.shiftRight_zero] at this
+      rw [this]
+  · by_cases hbig : (65535:Int) < n
+    · simp [hv, hbig]
+    · have : ¬ n > 65535 := by omega
+      simp only [hv, hbig, decide_true, decide_false, if_true, if_false, Bool.false_eq_true, Option.map_some,
+        Marshal.encShort, List.map_append, List.map_cons, List.map_nil, List.append_assoc, List.cons_append, List.nil_append]
+      rw [byte_shift (by decide) n 8 hn, byte_low (by decide) n hn, byteOf_shift_toS16 n 8 (by omega)]
+      have := byteOf_shift_toS16 n 0 (by omega)
+      simp only [Int.shiftRight_zero] at this
+      rw [this]
 
 end GenTie.C12
